@@ -15,8 +15,6 @@ set_option linter.unusedSectionVars false
 set_option linter.unusedVariables false
 namespace Bridge
 variable {α : Type} [Field α] [LinearOrder α] [IsStrictOrderedRing α]
-  [HasSqrt α] [HasExp α] [HasLog α] [HasSin α] [HasCos α] [HasAsin α] [HasRpow α] [HasPi α] [HasRound α] [HasFloor α]
-  [HasTrunc α] [HasOfInt α]
 
 open GridSample
 
